@@ -1,7 +1,11 @@
 //! Engines: each simulates one subsystem of fuel-vm behind the seams the code offers.
+pub mod da;
+pub mod mem;
 pub mod merkle;
+pub mod pred;
 pub mod vm;
+pub mod wire;
 
 use crate::kernel::EngineDef;
 
-pub static ALL: &[&EngineDef] = &[&merkle::BMT, &merkle::SMT, &vm::VM];
+pub static ALL: &[&EngineDef] = &[&merkle::BMT, &merkle::SMT, &vm::VM, &wire::WIRE, &mem::MEM, &da::DA, &pred::PRED];
